@@ -845,8 +845,10 @@ def check(spec, res, stats):
     if fam in CONST_FAMILIES and not dropped:              # sub-case = kind of system + do preloaded names occur
         tag = '#%s-%s-%s' % (spec['base'], 'preloaded-name' if set(consts) & set(_preloaded_constants() + PRELOADED_FUNCS)
                              else 'ordinary-names', mode)
-    res.violation(key + tag, 'input %r and result %r disagree (%s) at %s' % (
-        in_lines, cases, mode, {k: str(v) for k, v in pt.items()}), jsonable(spec))
+    res.violation(key + tag, 'input %r and result %r disagree (%s) at %s%s' % (
+        in_lines, cases, mode, {k: str(v) for k, v in pt.items()},
+        ' [text %r, result %r, with the caller\'s locals=%r substituted]' % (spec['text'], out, consts) if consts else ''),
+        jsonable(spec))
 
 
 def _merge_situation(bounds):
@@ -934,7 +936,20 @@ def run(tier='quick', seed=0):
              'returned bounds hold exactly where all given bounds hold (so an unsatisfiable input needs None or an '
              'unsatisfiable result); all 7x7 comparator pairs on one side with equal / increasing / decreasing '
              'right-hand sides (147, complete), then seeded sequences of 2-5 bounds over 1-2 side texts and 1-2 '
-             'right-hand sides; sub-case = comparators that sit on one (side, rhs) text, or none-returned.',
+             'right-hand sides; sub-case = comparators that sit on one (side, rhs) text, or none-returned.  '
+             'simplify-constants / solve-constants: a system of the families simplify-linear / -rational / -boundary / '
+             '-shared-sign (7:4:5:3) resp. solve in which 1-4 numeric literals (coefficients, right-hand sides, numerators; '
+             'never an exponent) are replaced by named constants whose values are passed through the documented option '
+             'locals= (\'additional variables used in the constraints equations, and their desired values\'); the value '
+             'is the literal (int stays int) or, with the sign moved into the constant, its negative; equal values '
+             'share a name in 70%; names: 65% the float constants that math / numpy export (e, pi, tau, inf, nan, '
+             'euler_gamma: names simplify / solve preload), 25% ordinary names, 10% preloaded callables (gamma, sum, '
+             'mean); a name is never a variable, never of the form base+digits, and contains no variable name; 20% '
+             'carry an unused extra entry in locals.  Oracle: every constant name in the input AND in the returned '
+             'text is replaced by a literal of exactly the CALLER\'S value, then input and result are compared over all '
+             'points as for the other families (the system is defined by the caller\'s values, whatever the name also '
+             'means in math / numpy).  Systems whose substituted text has two lines with identical sides or a line '
+             'whose variables cancel are regenerated.  Sub-case: #<base family>-<preloaded-name|ordinary-names>-<exact|band>.',
         bound='%s tier: %s programs per family, seed-derived' % (tier, COUNTS[tier]))
     specs = []
     order = sorted(f for f in COUNTS[tier] if f not in NEW_FAMILIES + CONST_FAMILIES) + list(NEW_FAMILIES + CONST_FAMILIES)   # earlier families keep their seeds
